@@ -366,3 +366,61 @@ func (a *Adversary) AttackLockAmnesia(crash bool) bool {
 	a.FairSuffix(h, 8000)
 	return true
 }
+
+// AttackBadBlock waits (fairly) for a height whose round-0 proposer is
+// Byzantine, lets mut alter an otherwise well-formed block, publishes the signed
+// proposal and parts together with Byzantine prevotes and precommits for it, and
+// then lets the network run fairly. mut returns false if it cannot apply.
+func (a *Adversary) AttackBadBlock(maxHeights int, mut func(b *types.Block, ref *Node) bool) (staged bool, height int64, id types.BlockID) {
+	n := a.N
+	for att := 0; att < maxHeights; att++ {
+		h, ref, ok := a.syncNewHeight(8000)
+		if !ok {
+			return false, 0, id
+		}
+		hon := a.Honest()
+		for _, i := range hon {
+			n.FireStep(i, pbft.RoundStepNewHeight)
+		}
+		rs := ref.CS.VerifRoundState()
+		if rs.Height != h || rs.Round != 0 {
+			continue
+		}
+		vs := rs.Validators
+		p := a.nodeByAddr(vs.Proposer().Address)
+		if p < 0 || !a.isByz(p) {
+			if _, ok := a.FairSuffix(h, 8000); !ok {
+				return false, 0, id
+			}
+			continue
+		}
+		b, _ := a.MakeBlock(ref, p, []types.Tx{types.Tx(fmt.Sprintf("bad-%d", h)), types.Tx(fmt.Sprintf("bad2-%d", h))})
+		if b == nil {
+			return false, 0, id
+		}
+		if !mut(b, ref) {
+			a.FairSuffix(h, 8000)
+			continue
+		}
+		var parts *types.PartSet
+		func() {
+			defer func() {
+				if r := recover(); r != nil {
+					parts = nil
+				}
+			}()
+			parts = b.MakePartSet(n.Cfg.PartSize)
+		}()
+		if parts == nil || b.Hash() == nil {
+			a.FairSuffix(h, 8000)
+			continue
+		}
+		id = types.BlockID{Hash: b.Hash(), PartsHeader: parts.Header()}
+		a.publishProposal(p, h, 0, parts, -1, types.BlockID{})
+		a.byzVotes(vs, h, 0, types.VoteTypePrevote, id)
+		a.byzVotes(vs, h, 0, types.VoteTypePrecommit, id)
+		a.FairSuffix(h, 8000)
+		return true, h, id
+	}
+	return false, 0, id
+}
